@@ -127,7 +127,6 @@ class RenderContext:
         """Resolve the variable _path_ in the current namespace."""
         it = iter(path)
         root = next(it)
-        assert isinstance(root, str)
 
         try:
             obj = self.scope[root]
@@ -163,7 +162,6 @@ class RenderContext:
         """Asynchronously resolve the variable _path_ in the current namespace."""
         it = iter(path)
         root = next(it)
-        assert isinstance(root, str)
 
         try:
             obj = self.scope[root]
